@@ -1,11 +1,42 @@
 import Driver.GateParse
 import Q1t.Spec.Unitaries
 import Q1t.Model.Param
-/-! Driver for C05 (gate matrices). Requests: `matrix <term>`, `nrbits <term>`. -/
+/-! Driver for C05 (gate matrices). Requests: `matrix <term>`, `nrbits <term>`, `matrixref`, `matrixlive`, and
+`applymat <layout> <cols> <term> <entries>`: `Gate::apply_mat` on the logical `rows × cols` matrix whose row-major entries
+follow the term, held by the harness in the memory layout `<layout>` (row-major, column-major, transposed copies, strided,
+reversed, views); the answer `ok <rows> <cols> <entries>` does not depend on the layout: it is `(matrix() ⊗ 1)·M`. -/
 open Q1t Q1t.Proto Q1t.GateParse Q1t.CFloat
+
+def unflatRC (rows cols : Nat) (v : List CFloat) : LMat CFloat :=
+  (List.range rows).map fun r => (v.drop (r * cols)).take cols
+
+/-- `(U ⊗ 1_r)·M` for a `2^k × 2^k` matrix `U` and `M` with `r·2^k` rows (the gate acts on the leading qubits) -/
+def leftApply (U : LMat CFloat) (M : LMat CFloat) : LMat CFloat :=
+  let r := M.length / U.length
+  LMat.mul (LMat.kron U (LMat.identity r)) M
+
+/-- `applymat <layout> <cols> <term> <entries>` → (term, cols, logical matrix) -/
+def parseApplyMat (ws : List String) : Option (G × Nat × LMat CFloat) :=
+  match ws with
+  | _layout :: cols :: rest => do
+      let cols ← cols.toNat?
+      let (g, ent) ← parseGate rest
+      let v ← parseVec ent
+      if cols = 0 ∨ v.length % cols ≠ 0 then none
+      let rows := v.length / cols
+      if rows % (2 ^ Gate.nrBits g) ≠ 0 ∨ rows = 0 then none
+      pure (g, cols, unflatRC rows cols v)
+  | _ => none
 
 def handle (line : String) : String :=
   match words line with
+  | "applymat" :: rest =>
+    match parseApplyMat rest with
+    | some (g, cols, m) =>
+      let u : LMat CFloat := Gate.matrix g
+      if u.isEmpty then "panic" else
+      s!"ok {m.length} {cols} " ++ showVec (leftApply u m).flatten
+    | none => "bad-op"
   | "matrixref" :: rest =>
     -- the gate's parameter is `Reference 0`; the cell currently holds the value on the request line
     match parseGate rest with
@@ -46,6 +77,16 @@ def specCheck (line : String) : String :=
   match line.splitOn "\t" with
   | [req, ans] =>
     match words req, words ans with
+    | "applymat" :: rest, "ok" :: rows :: cols :: ent =>
+      match parseApplyMat rest, rows.toNat?, cols.toNat?, parseVec ent with
+      | some (g, c, m), some rows, some cols, some v =>
+        if rows ≠ m.length ∨ cols ≠ c ∨ v.length ≠ rows * cols then "fail apply-mat-shape-changed" else
+        let ref := leftApply (Spec.specMatrix g) m
+        let d := maxDist (unflatRC rows cols v) ref
+        if d > 1e-9 then s!"fail apply-mat-differs-from-documented-unitary-times-matrix layout={rest.headD ""} dist={d}"
+        else "ok"
+      | _, _, _, _ => "fail bad-request"
+    | "applymat" :: _, _ => "fail apply-mat-call-did-not-return"
     | kind :: rest, "ok" :: n :: ent =>
       if kind ≠ "matrix" ∧ kind ≠ "matrixref" ∧ kind ≠ "matrixlive" then "skip" else
       match parseGate (if kind = "matrixlive" then rest.drop 1 else rest), n.toNat?, parseVec ent with
